@@ -26,6 +26,8 @@ func genScenario(seed int64, profile string, allow map[string]bool) *Scenario {
 		return genHand(seed, allow)
 	case "kf":
 		return genKF(seed, allow)
+	case "fault":
+		return genFault(seed, allow)
 	}
 	r := rand.New(rand.NewSource(seed*7919 + 17))
 	sc := &Scenario{Seed: seed, Mode: []string{"ct", "ct", "cash", "mtt"}[r.Intn(4)], Rule: "default", MinPlayers: 2,
